@@ -7,6 +7,7 @@
 """Handles parsing of Python code."""
 
 import _ast
+import ast
 import operator
 
 from mako import _ast_util
@@ -298,7 +299,19 @@ class ParseFunc(_ast_util.NodeVisitor):
 class ExpressionGenerator:
     def __init__(self, astnode):
         self.generator = _ast_util.SourceGenerator(" " * 4)
-        self.generator.visit(astnode)
+        try:
+            self.generator.visit(astnode)
+            self._value = "".join(self.generator.result)
+            # the hand written generator predates much of the expression
+            # grammar; its output is kept only if it still means the same
+            if isinstance(astnode, _ast.expr):
+                reparsed = ast.parse(self._value, mode="eval").body
+            else:
+                reparsed = ast.parse(self._value)
+            if ast.dump(reparsed) != ast.dump(astnode):
+                raise ValueError(self._value)
+        except Exception:
+            self._value = ast.unparse(astnode)
 
     def value(self):
-        return "".join(self.generator.result)
+        return self._value
